@@ -603,7 +603,7 @@ public:
       /* call copy constructor for first elements */
       int i;
 
-      for(i = 0; i < old.thenum; i++)
+      for(i = 0; i < old.thesize; i++)
          new(&(theitem[i])) Item(old.theitem[i]);
 
       /* call default constructor for remaining elements */
